@@ -87,6 +87,7 @@ func jobs(tier string) []driver.Job {
 		}
 		out = append(out, mkJob(scen{d: d, root: root, conc: 2, api: "graph", cbErr: true}, cd, 1, []int{0}))
 	}
+	out = append(out, mountJobs(th)...)
 	return append(out, seamJobs(th)...)
 }
 
